@@ -85,6 +85,11 @@ pub struct ClientRun {
     pub requests: Vec<(Vec<u8>, SocketAddr)>,
 }
 
+thread_local! {
+    /// `run_client` of this thread sends the replies of a multi-request run last request first
+    pub static REPLY_ORDER_REVERSED: std::cell::Cell<bool> = std::cell::Cell::new(false);
+}
+
 /// Run the real client against a loopback responder. `respond` gets all `n` requests once they
 /// have arrived and returns, per request, the datagrams to send back to that request's source.
 pub fn run_client<F>(args: &[&str], n: usize, respond: F) -> Result<ClientRun, String>
@@ -131,8 +136,10 @@ where
         }
     }
     let replies = respond(&reqs);
-    for (k, rs) in replies.iter().enumerate() {
-        for r in rs {
+    // replies go out in request order, or (REPLY_ORDER_REVERSED) last request first
+    let order: Vec<usize> = if REPLY_ORDER_REVERSED.with(|r| r.get()) { (0..replies.len()).rev().collect() } else { (0..replies.len()).collect() };
+    for k in order {
+        for r in &replies[k] {
             let _ = sock.send_to(r, reqs[k].1);
         }
     }
